@@ -3,9 +3,9 @@
 (* C11 I/O failures are never silently dropped.  Model: coq/Fault.v (policy language, abstract interpreter, *)
 (* mpi2nc, propagation table) instantiated with coq/Gen_iosites.v (tools/tr_iosites.py, regenerated from the *)
 (* sources as built on every run).  no_silent_drop s: for every MPI error class, the function containing I/O *)
-(* site s returns an error and so does every function on every static call path above it (up to ncmpi_*). *)
-(* *_refuted: the present code loses the error (witness class or losing link site); *_drops: exactly which *)
-(* classes are lost in the function; *_partial: what is propagated nevertheless. *)
+(* site s returns an error and so does every function on every static call path above it , up to the ncmpi_ entry points. *)
+(* xxx_refuted: the present code loses the error (witness class or losing link site);  xxx_drops: exactly which *)
+(* classes are lost in the function; xxx_partial: what is propagated nevertheless. *)
 From Coq Require Import ZArith List.
 From Pnc Require Import Proofs_Fault.
 Set Printing Width 100.
@@ -618,167 +618,167 @@ Print Assumptions no_silent_drop_ncmpio_getput_zero_req__MPI_File_write_partial.
 
 Theorem chain_enddef_header_write :
   chain_reaches_api link_sites (chain_of "enddef: header write").
-Proof. exact @chain_enddef_header_write. Qed.
+Proof. exact @ch_enddef_header_write. Qed.
 Print Assumptions chain_enddef_header_write.
 
 Theorem chain__enddef_header_write :
   chain_reaches_api link_sites (chain_of "_enddef: header write").
-Proof. exact @chain__enddef_header_write. Qed.
+Proof. exact @ch__enddef_header_write. Qed.
 Print Assumptions chain__enddef_header_write.
 
 Theorem chain_put_collective_numrecs :
   chain_reaches_api link_sites (chain_of "put (collective): numrecs").
-Proof. exact @chain_put_collective_numrecs. Qed.
+Proof. exact @ch_put_collective_numrecs. Qed.
 Print Assumptions chain_put_collective_numrecs.
 
 Theorem chain_sync_numrecs_numrecs :
   chain_reaches_api link_sites (chain_of "sync_numrecs: numrecs").
-Proof. exact @chain_sync_numrecs_numrecs. Qed.
+Proof. exact @ch_sync_numrecs_numrecs. Qed.
 Print Assumptions chain_sync_numrecs_numrecs.
 
 Theorem chain_sync_numrecs :
   chain_reaches_api link_sites (chain_of "sync: numrecs").
-Proof. exact @chain_sync_numrecs. Qed.
+Proof. exact @ch_sync_numrecs. Qed.
 Print Assumptions chain_sync_numrecs.
 
 Theorem chain_end_indep_data_numrecs :
   chain_reaches_api link_sites (chain_of "end_indep_data: numrecs").
-Proof. exact @chain_end_indep_data_numrecs. Qed.
+Proof. exact @ch_end_indep_data_numrecs. Qed.
 Print Assumptions chain_end_indep_data_numrecs.
 
 Theorem chain_close_independent_mode_numrecs :
   chain_reaches_api link_sites (chain_of "close (independent mode): numrecs").
-Proof. exact @chain_close_independent_mode_numrecs. Qed.
+Proof. exact @ch_close_independent_mode_numrecs. Qed.
 Print Assumptions chain_close_independent_mode_numrecs.
 
 Theorem chain_wait_all_numrecs_refuted :
   ~ chain_reaches_api link_sites (chain_of "wait_all: numrecs").
-Proof. exact @chain_wait_all_numrecs_refuted. Qed.
+Proof. exact @ch_wait_all_numrecs_refuted. Qed.
 Print Assumptions chain_wait_all_numrecs_refuted.
 
 Theorem chain_wait_all_numrecs_partial :
   chain_reaches_api_except link_sites (chain_of "wait_all: numrecs") bad_link_ids.
-Proof. exact @chain_wait_all_numrecs_partial. Qed.
+Proof. exact @ch_wait_all_numrecs_partial. Qed.
 Print Assumptions chain_wait_all_numrecs_partial.
 
 Theorem chain_enddef_after_redef_move_fixed :
   chain_reaches_api link_sites (chain_of "enddef after redef: move fixed").
-Proof. exact @chain_enddef_after_redef_move_fixed. Qed.
+Proof. exact @ch_enddef_after_redef_move_fixed. Qed.
 Print Assumptions chain_enddef_after_redef_move_fixed.
 
 Theorem chain_enddef_after_redef_move_records :
   chain_reaches_api link_sites (chain_of "enddef after redef: move records").
-Proof. exact @chain_enddef_after_redef_move_records. Qed.
+Proof. exact @ch_enddef_after_redef_move_records. Qed.
 Print Assumptions chain_enddef_after_redef_move_records.
 
 Theorem chain_enddef_fill_new_variables :
   chain_reaches_api link_sites (chain_of "enddef: fill new variables").
-Proof. exact @chain_enddef_fill_new_variables. Qed.
+Proof. exact @ch_enddef_fill_new_variables. Qed.
 Print Assumptions chain_enddef_fill_new_variables.
 
 Theorem chain_fill_var_rec :
   chain_reaches_api link_sites (chain_of "fill_var_rec").
-Proof. exact @chain_fill_var_rec. Qed.
+Proof. exact @ch_fill_var_rec. Qed.
 Print Assumptions chain_fill_var_rec.
 
 Theorem chain_fill_var_rec_numrecs :
   chain_reaches_api link_sites (chain_of "fill_var_rec: numrecs").
-Proof. exact @chain_fill_var_rec_numrecs. Qed.
+Proof. exact @ch_fill_var_rec_numrecs. Qed.
 Print Assumptions chain_fill_var_rec_numrecs.
 
 Theorem chain_put_blocking :
   chain_reaches_api link_sites (chain_of "put (blocking)").
-Proof. exact @chain_put_blocking. Qed.
+Proof. exact @ch_put_blocking. Qed.
 Print Assumptions chain_put_blocking.
 
 Theorem chain_put_independent :
   chain_reaches_api link_sites (chain_of "put (independent)").
-Proof. exact @chain_put_independent. Qed.
+Proof. exact @ch_put_independent. Qed.
 Print Assumptions chain_put_independent.
 
 Theorem chain_get_blocking :
   chain_reaches_api link_sites (chain_of "get (blocking)").
-Proof. exact @chain_get_blocking. Qed.
+Proof. exact @ch_get_blocking. Qed.
 Print Assumptions chain_get_blocking.
 
 Theorem chain_get_independent :
   chain_reaches_api link_sites (chain_of "get (independent)").
-Proof. exact @chain_get_independent. Qed.
+Proof. exact @ch_get_independent. Qed.
 Print Assumptions chain_get_independent.
 
 Theorem chain_put_zero_length_participation :
   chain_reaches_api link_sites (chain_of "put, zero-length participation").
-Proof. exact @chain_put_zero_length_participation. Qed.
+Proof. exact @ch_put_zero_length_participation. Qed.
 Print Assumptions chain_put_zero_length_participation.
 
 Theorem chain_get_zero_length_participation :
   chain_reaches_api link_sites (chain_of "get, zero-length participation").
-Proof. exact @chain_get_zero_length_participation. Qed.
+Proof. exact @ch_get_zero_length_participation. Qed.
 Print Assumptions chain_get_zero_length_participation.
 
 Theorem chain_wait_all_refuted :
   ~ chain_reaches_api link_sites (chain_of "wait_all").
-Proof. exact @chain_wait_all_refuted. Qed.
+Proof. exact @ch_wait_all_refuted. Qed.
 Print Assumptions chain_wait_all_refuted.
 
 Theorem chain_wait_all_partial :
   chain_reaches_api_except link_sites (chain_of "wait_all") bad_link_ids.
-Proof. exact @chain_wait_all_partial. Qed.
+Proof. exact @ch_wait_all_partial. Qed.
 Print Assumptions chain_wait_all_partial.
 
 Theorem chain_wait_all_one_request_per_call_refuted :
   ~ chain_reaches_api link_sites (chain_of "wait_all (one request per call)").
-Proof. exact @chain_wait_all_one_request_per_call_refuted. Qed.
+Proof. exact @ch_wait_all_one_request_per_call_refuted. Qed.
 Print Assumptions chain_wait_all_one_request_per_call_refuted.
 
 Theorem chain_wait_all_one_request_per_call_partial :
   chain_reaches_api_except link_sites (chain_of "wait_all (one request per call)")
            bad_link_ids.
-Proof. exact @chain_wait_all_one_request_per_call_partial. Qed.
+Proof. exact @ch_wait_all_one_request_per_call_partial. Qed.
 Print Assumptions chain_wait_all_one_request_per_call_partial.
 
 Theorem chain_wait_independent_refuted :
   ~ chain_reaches_api link_sites (chain_of "wait (independent)").
-Proof. exact @chain_wait_independent_refuted. Qed.
+Proof. exact @ch_wait_independent_refuted. Qed.
 Print Assumptions chain_wait_independent_refuted.
 
 Theorem chain_wait_independent_partial :
   chain_reaches_api_except link_sites (chain_of "wait (independent)") bad_link_ids.
-Proof. exact @chain_wait_independent_partial. Qed.
+Proof. exact @ch_wait_independent_partial. Qed.
 Print Assumptions chain_wait_independent_partial.
 
 Theorem chain_wait_all_zero_length_participation_refuted :
   ~ chain_reaches_api link_sites (chain_of "wait_all, zero-length participation").
-Proof. exact @chain_wait_all_zero_length_participation_refuted. Qed.
+Proof. exact @ch_wait_all_zero_length_participation_refuted. Qed.
 Print Assumptions chain_wait_all_zero_length_participation_refuted.
 
 Theorem chain_wait_all_zero_length_participation_partial :
   chain_reaches_api_except link_sites (chain_of "wait_all, zero-length participation")
            bad_link_ids.
-Proof. exact @chain_wait_all_zero_length_participation_partial. Qed.
+Proof. exact @ch_wait_all_zero_length_participation_partial. Qed.
 Print Assumptions chain_wait_all_zero_length_participation_partial.
 
 Theorem chain_open_header_read :
   chain_reaches_api link_sites (chain_of "open: header read").
-Proof. exact @chain_open_header_read. Qed.
+Proof. exact @ch_open_header_read. Qed.
 Print Assumptions chain_open_header_read.
 
 Theorem chain_open_header_read_variables_refuted :
   ~ chain_reaches_api link_sites (chain_of "open: header read (variables)").
-Proof. exact @chain_open_header_read_variables_refuted. Qed.
+Proof. exact @ch_open_header_read_variables_refuted. Qed.
 Print Assumptions chain_open_header_read_variables_refuted.
 
 Theorem chain_open_header_read_variables_partial :
   chain_reaches_api_except link_sites (chain_of "open: header read (variables)") bad_link_ids.
-Proof. exact @chain_open_header_read_variables_partial. Qed.
+Proof. exact @ch_open_header_read_variables_partial. Qed.
 Print Assumptions chain_open_header_read_variables_partial.
 
 Theorem chain_put_att_in_data_mode_header_write :
   chain_reaches_api link_sites (chain_of "put_att in data mode: header write").
-Proof. exact @chain_put_att_in_data_mode_header_write. Qed.
+Proof. exact @ch_put_att_in_data_mode_header_write. Qed.
 Print Assumptions chain_put_att_in_data_mode_header_write.
 
 Theorem chain_rename_var_in_data_mode_header_write :
   chain_reaches_api link_sites (chain_of "rename_var in data mode: header write").
-Proof. exact @chain_rename_var_in_data_mode_header_write. Qed.
+Proof. exact @ch_rename_var_in_data_mode_header_write. Qed.
 Print Assumptions chain_rename_var_in_data_mode_header_write.
